@@ -527,6 +527,121 @@ def stream_nomask(chk, i, rng):
     chk.count(None)
 
 
+def repr_variants(ref, kind, rng):
+    """The same values in other representations: (label, object, comparison tolerance for floats)."""
+    n, d = ref.shape
+    out = []
+    if kind in ("int", "bool"):
+        out += [("int64", ref.astype(np.int64), 1e-12), ("int32", ref.astype(np.int32), 1e-12),
+                ("list-int", [[int(v) for v in row] for row in ref], 1e-12)]
+    if kind == "bool":
+        out += [("bool", ref.astype(bool), 1e-12)]
+    out += [("float32", ref.astype(np.float32), 1e-12)]          # values are exactly representable: equality is exact
+    out += [("fortran", np.asfortranarray(ref.copy()), 1e-12)]
+    big = np.full((2 * n, d), 7.5)
+    big[::2] = ref
+    out += [("strided-rows", big[::2], 1e-12)]
+    rev = ref[:, ::-1].copy()
+    out += [("reversed-cols-view", rev[:, ::-1], 1e-12)]
+    ro = ref.copy()
+    ro.setflags(write=False)
+    out += [("read-only", ro, 1e-12)]
+    out += [("list", [[float(v) for v in row] for row in ref], 1e-12), ("tuple", tuple(tuple(float(v) for v in row) for row in ref), 1e-12)]
+    return out
+
+
+def snapshot(v):
+    if isinstance(v, np.ndarray):
+        return (v.dtype.str, v.shape, v.strides, v.flags.writeable, v.tobytes())
+    return repr(v)
+
+
+def stream_repr(chk, i, rng):
+    """Input representation: the same values as int64 / int32 / bool / float32 / Fortran / strided / read-only / list inputs to
+    predict_proba, predict, score, find_active_points (model with fractional, negative cut points) and fit must give the
+    result of the float64 C-contiguous reference and of the extracted model, raise nothing, and leave the caller's array alone."""
+    d = int(rng.integers(1, 4))
+    mask, used = gen_mask(rng, d)
+    n_cuts = int(rng.integers(1, 4))
+    K = int(rng.integers(2, 4))
+    temp = float([1e-3, 1e-2, 0.1, 1.0][int(rng.integers(0, 4))])
+    kind = ["int", "bool", "eighth"][int(rng.integers(0, 3))]
+    n = int(rng.integers(K + 2, K + 6))
+    if kind == "int":
+        ref = rng.integers(-3, 4, size=(n, d)).astype(float)
+    elif kind == "bool":
+        ref = rng.integers(0, 2, size=(n, d)).astype(float)
+    else:
+        ref = rng.integers(-24, 25, size=(n, d)) / 8.0
+    ref = np.ascontiguousarray(ref, dtype=np.float64)
+    seed = int(rng.integers(0, 2 ** 31 - 1))
+    est = Douglas(n_clusters=K, gemini="mmd_ova", n_cuts=n_cuts, feature_mask=mask, temperature=temp, max_iter=1, random_state=seed)
+    est.fit(rng.normal(size=(K + 3, d)))
+    # fractional, negative cut points that no data value can equal
+    est.cut_points_list_ = [(j, rng.permutation(np.arange(-20, 21))[:n_cuts] / 8.0 + 0.37 * (1 if rng.random() < 0.5 else -1)) for j in used]
+    est.leaf_scores_ = rng.normal(size=((n_cuts + 1) ** len(used), K)) * 2
+    cpl, S = cpl_of(est), np.asarray(est.leaf_scores_)
+    base = {"d": d, "mask": None if mask is None else [int(v) for v in mask], "n_cuts": n_cuts, "K": K, "temperature": temp, "data": kind,
+            "cut_points_list": [[j, c.tolist()] for j, c in cpl], "leaf_scores": S.tolist(), "X": ref.tolist()}
+    P0 = np.asarray(est.predict_proba(ref.copy()))
+    L0 = np.asarray(est.predict(ref.copy()))
+    A0 = [int(v) for v in est.find_active_points(ref.copy())]
+    s0 = float(est.score(ref.copy()))
+    mod = model_infer(chk, temp, K, cpl, S, ref)
+    for r in range(n):
+        if mod[r] is None or not close(P0[r], mod[r][1], float(np.abs(S).max())):
+            chk.fail("repr:model-mismatch", f"row {r}: float64 reference prediction differs from the model", dict(base, row=r))
+            break
+    if A0 != spec_active(cpl, ref):
+        chk.fail("repr:active-points", f"find_active_points={A0}, spec={spec_active(cpl, ref)}", base, layer="L3")
+    variants = repr_variants(ref, kind, rng)
+    for label, v, tol in variants:
+        replay = dict(base, representation=label)
+        before = snapshot(v)
+        try:
+            P = np.asarray(est.predict_proba(v))
+            L = np.asarray(est.predict(v))
+            A = [int(a) for a in est.find_active_points(v)]
+            sc = float(est.score(v))
+        except Exception as e:  # noqa
+            chk.fail(f"repr:exception:{type(e).__name__}", f"{label} input raised {type(e).__name__}: {e} where the float64 reference call succeeds", replay, layer="L3")
+            continue
+        if snapshot(v) != before:
+            chk.fail("repr:argument-modified", f"the caller's {label} array was modified by predict_proba/predict/score/find_active_points", replay, layer="L3")
+        if P.shape != P0.shape or np.abs(P - P0).max() > tol:
+            chk.fail("repr:predict_proba", f"predict_proba of the same values as {label} differs from the float64 reference by "
+                     f"{np.abs(P - P0).max() if P.shape == P0.shape else 'shape'} (temperature {temp})", replay, layer="L3")
+        elif not np.array_equal(L, L0):
+            chk.fail("repr:predict", f"predict of the same values as {label} gives other labels than the float64 reference", replay, layer="L3")
+        if A != A0:
+            chk.fail("repr:find_active_points", f"find_active_points of the same values as {label} = {A}, float64 reference {A0}", replay, layer="L3")
+        # score = GEMINI of the predictions with an affinity computed from the raw input: scikit-learn keeps float32 inputs in
+        # float32 there (float32 resolution), and the MMD takes a square root of a cancelling sum (1e-16 noise -> 1e-8)
+        # (with a float32 affinity the cancelling sum carries 1e-8 noise -> up to ~3e-4 on a score that is exactly 0 in float64)
+        if not abs(sc - s0) <= (2e-3 if label == "float32" else 1e-7) * (1 + abs(s0)):
+            chk.fail("repr:score", f"score of the same values as {label} = {sc}, float64 reference {s0}", replay, layer="L3")
+        chk.dist[f"repr:{label}"] += 1
+    # fit on another representation of the same data: same fitted parameters and labels
+    label, v, _ = variants[int(rng.integers(0, len(variants)))]
+    kw = dict(n_clusters=K, gemini="mmd_ova", n_cuts=n_cuts, feature_mask=mask, temperature=max(temp, 0.05), max_iter=2, random_state=seed)
+    f0 = Douglas(**kw).fit(ref.copy())
+    before = snapshot(v)
+    try:
+        f1 = Douglas(**kw).fit(v)
+        same = (np.array_equal(f0.labels_, f1.labels_) and np.allclose(f0.leaf_scores_, f1.leaf_scores_, rtol=0, atol=1e-12)
+                and all(a[0] == b[0] and np.allclose(a[1], b[1], rtol=0, atol=1e-12) for a, b in zip(f0.cut_points_list_, f1.cut_points_list_)))
+        if not same:
+            chk.fail("repr:fit", f"fit on the same values as {label} ends with other parameters / labels than on the float64 reference", dict(base, representation=label), layer="L3")
+        if snapshot(v) != before:
+            chk.fail("repr:argument-modified", f"the caller's {label} array was modified by fit", dict(base, representation=label), layer="L3")
+    except Exception as e:  # noqa
+        chk.fail(f"repr:exception:{type(e).__name__}", f"fit on {label} input raised {type(e).__name__}: {e} where the float64 reference call succeeds", dict(base, representation=label), layer="L3")
+    chk.dist[f"repr:data={kind}"] += 1
+    chk.dist[f"repr:fit:{label}"] += 1
+    chk.traces += 1
+    chk.count(("repr", kind, d, tuple(used), n_cuts, round(math.log10(temp)), i))
+
+
 def fresh_copy(est, K, n_cuts, mask, temp, cpl, S):
     """A newly constructed object given identical hyper-parameters and parameters (no history)."""
     f = Douglas(n_clusters=K, gemini="mmd_ova", n_cuts=n_cuts, feature_mask=None if mask is None else np.array(mask, copy=True),
@@ -648,7 +763,7 @@ def stream_reuse(chk, i, rng):
 STREAMS = {"binning": (stream_binning, 900, 9000), "infer": (stream_infer, 800, 8000), "init": (stream_init, 250, 2500),
            "cells": (stream_cells, 400, 4000), "active": (stream_active, 1500, 15000),
            "active_malformed": (stream_active_malformed, 120, 1200), "nomask": (stream_nomask, 5, 20),
-           "reuse": (stream_reuse, 250, 2500)}
+           "reuse": (stream_reuse, 250, 2500), "repr": (stream_repr, 60, 600)}
 
 
 def main():
@@ -674,7 +789,9 @@ def main():
                     "vs an independent spec on ranges between two cuts / touching a cut / constant / outside, and on data with too few columns; "
                     "reuse: operation sequences on ONE object (fit, set_params(temperature) over orders of magnitude, hand-set cut points / number of cuts / leaf scores / mask, refit, "
                     "direct _leaf_binning) with predict_proba compared after every step with the model on the current parameters, a fresh object with identical parameters and the grid-cell value; "
-                    "half of the fitted objects of the infer/cells streams are trained at another temperature and switched with set_params. "
+                    "half of the fitted objects of the infer/cells streams are trained at another temperature and switched with set_params; "
+                    "repr: the same integral / 0-1 / multiple-of-1/8 values as int64, int32, bool, float32, Fortran, strided, reversed view, read-only, list and tuple inputs to "
+                    "predict_proba, predict, score, find_active_points (fractional negative cut points) and fit must reproduce the float64 reference and the model and leave the argument unchanged. "
                     "non-trivial = a masked feature exists or cut points are unsorted/duplicated/on the data grid (binning, infer), a mask is given (init), every cells case, "
                     ">=2 cuts with a between/touch feature (active); distinct = distinct case signature")
 
